@@ -29,11 +29,18 @@ def same_filter_sequences(ctx):
         Ls, Lc, Lk = eh.names_of(d)
         um = {s.name: e for s, e in d.state_model.items()}
         dt = gen.gen_point(ctx.rng, d)["dt"]
-        for step in range(4):
+        prev = None       # (returned covariance object, snapshot of its data, returned state object, snapshot)
+        for step in range(5):
             pt = gen.gen_point(ctx.rng, d)
             pt["dt"] = dt
             pt["cal"] = {s.name: 1 for s in d.calibration}
+            if step == 3:
+                pt["control"] = {k: 0 for k in pt["control"]}      # a control that is exactly zero still carries its noise
             P = eh.spd(ctx.rng, len(Ls))
+            if prev is not None and step % 2 == 0 and np.all(np.isfinite(prev[1])) and float(np.max(np.abs(prev[1]))) < 1e6:
+                # the ordinary filter loop: the covariance returned by the previous call is the next input
+                from fractions import Fraction as _F
+                P = [[_F(float(v)) for v in row] for row in (0.5 * (prev[1] + prev[1].T)).tolist()]
             case = {"def": d.describe(), "stream": "same-filter-sequence", "step": step, "point": eh.point_json(pt), "P": eh.mat_json(P),
                     "noise": {k: str(v) for k, v in process.items()}}
             ctx.case(case, nontrivial=step >= 1); ctx.count("stream=same-filter-sequence")
@@ -43,9 +50,19 @@ def same_filter_sequences(ctx):
             want_P = eh.madd(eh.mmul(eh.mmul(G, P), eh.mT(G)), eh.mmul(eh.mmul(V, M), eh.mT(V)))
             try:
                 with fk.quiet():
-                    r = ekf.process_model(float(pt["dt"]), eh.state_obj(ekf, pt), eh.cov_obj(ekf, P), eh.control_obj(ekf, pt))
+                    cov_in = eh.cov_obj(ekf, P)
+                    snap_in = cov_in.data.copy()
+                    if step == 3 and Lc:
+                        r = ekf.process_model(float(pt["dt"]), eh.state_obj(ekf, pt), cov_in)     # no control argument = all zero
+                    else:
+                        r = ekf.process_model(float(pt["dt"]), eh.state_obj(ekf, pt), cov_in, eh.control_obj(ekf, pt))
             except Exception as e:
                 ctx.fail(f"process-model-raises:{fk.exc_kind(e)}", f"process_model raises {e!r}"[:300], case); break
+            if not np.array_equal(cov_in.data, snap_in):
+                ctx.fail("process-model-mutates-input", "process_model modified the covariance it was given", case); break
+            if prev is not None and (not np.array_equal(prev[0].data, prev[1]) or not np.array_equal(prev[2].data, prev[3])):
+                ctx.fail("process-model-result-aliased", "a later process_model call changed a result returned by an earlier call", case); break
+            prev = (r.covariance, r.covariance.data.copy(), r.state, r.state.data.copy())
             if not eh.mat_close(r.covariance.data, want_P):
                 ctx.fail("predict-cov:history-dependent" if step else "predict-cov:with-control",
                          f"call {step} on the same filter (same dt, new control): covariance differs from G P G^T + V M V^T", case)
